@@ -92,8 +92,7 @@ Section Proto.
 
   (** InitTxArgs kept for a late-locked send *)
   Record late_args := mkLate {
-    la_minconf : N; la_max_outputs : N; la_change_outputs : N; la_all : bool;
-    la_recipient : option pk           (* payment_proof_recipient_address *)
+    la_minconf : N; la_max_outputs : N; la_change_outputs : N; la_all : bool
   }.
 
   (** libwallet Context *)
@@ -105,6 +104,7 @@ Section Proto.
     cx_amount : N;
     cx_fee : option N;
     cx_pp_index : option N;
+    cx_pp_recipient : option pk;       (* recipient address asked for at initiation (C11 fix) *)
     cx_late : option late_args
   }.
 
@@ -368,11 +368,8 @@ Section Proto.
       Returns the wallet after the effects that happened and the verdict. *)
   Definition late_lock_step (w : wallet) (r : slate) (c : ctxrec) (la : late_args)
     : wallet * result ctxrec :=
-    match late_lock_check pk esig pk_eqb (la_recipient la) (sl_proof r) with
-    | Err e => (w, Err e) | Panic q => (w, Panic q)
-    | Ok _ =>
       let p := mkParams (cx_amount c) false (w_tip w) (la_minconf la) (la_max_outputs la)
-                        (la_change_outputs la) (la_all la) (w_parent w) in
+                        (la_change_outputs la) (la_all la) (cx_parent c) in
       match build_send (w_outs w) p with
       | Err e => (w, Err e) | Panic q => (w, Panic q)
       | Ok b =>
@@ -382,14 +379,13 @@ Section Proto.
           let c' := mkCtx (cx_parent c) (cx_key c) (cx_nonce c) (cx_init_key c) (cx_init_nonce c)
                           (map (fun o => (o_key o, o_value o)) (b_inputs b))
                           (combine (seqN (fresh_key w) (length (b_changes b))) (b_changes b))
-                          (cx_amount c) (cx_fee c) (cx_pp_index c) None in
+                          (cx_amount c) (cx_fee c) (cx_pp_index c) (cx_pp_recipient c) None in
           let w1 := save_ctx w (sl_id r) c' in
           match lock_tx_context w1 (sl_id r) c' (sl_sigs r) (sl_proof r) (lock_time_tx w1 c' r) with
           | Err e => (w1, Err e) | Panic q => (w1, Panic q)
           | Ok w2 => (w2, Ok c')
           end
-      end
-    end.
+      end.
 
   (** repopulate_tx + complete_tx (+ verify_slate_payment_proof for a send) + update_stored_tx:
       everything after the offset adjustment, for both branches *)
@@ -422,8 +418,8 @@ Section Proto.
     let* _ :=
       (if invoice then Ok tt
        else verify_slate_payment_proof sk pk esig pk_eqb pub verify addr_sk
-              (map lg_proof (entries_for w (sl_id r) (Some (w_parent w))))
-              (cx_pp_index c) (w_parent w) (sl_proof r) amount excess) in
+              (map lg_proof (entries_for w (sl_id r) (Some (cx_parent c))))
+              (cx_pp_index c) (cx_pp_recipient c) (cx_parent c) (sl_proof r) amount excess) in
     let* w' := update_stored_tx w c (sl_id r) (sl_proof r) amount excess t2 invoice in
     Ok (w', t2).
 
@@ -569,12 +565,6 @@ Arguments sl_off {pk esig}.
 Arguments sl_sigs {pk esig}.
 Arguments sl_proof {pk esig}.
 Arguments mkSlate {pk esig}.
-Arguments mkLate {pk}.
-Arguments la_minconf {pk}.
-Arguments la_max_outputs {pk}.
-Arguments la_change_outputs {pk}.
-Arguments la_all {pk}.
-Arguments la_recipient {pk}.
 Arguments mkCtx {pk}.
 Arguments cx_parent {pk}.
 Arguments cx_key {pk}.
@@ -586,6 +576,7 @@ Arguments cx_outputs {pk}.
 Arguments cx_amount {pk}.
 Arguments cx_fee {pk}.
 Arguments cx_pp_index {pk}.
+Arguments cx_pp_recipient {pk}.
 Arguments cx_late {pk}.
 Arguments mkLog {pk esig}.
 Arguments lg_parent {pk esig}.
@@ -681,7 +672,7 @@ Definition forge_reply (s1 : cslate) (fg : forge) (base : Z) (rparent : N) : csl
                                                (commit_of_key ps) rparent)
                | None => None end in
   mkSlate (sl_num_parts s1) (sl_id s1) (fg_state fg) (Some (ins ++ outs)) false
-          0 (match fg_state fg with StI2 => fee | _ => 0 end)
+          0 (match fg_fee fg with Some f => f | None => 0 end)
           (fg_feat fg) (fg_feat_args fg) (sl_ttl s1) off signed proof.
 
 (** field mutations of a reply. "Other" values come from a second reply [o] (another
@@ -698,7 +689,13 @@ Inductive mutation :=
 | MComsNone | MComsEmpty | MComsDup | MComsOther | MComsProofOther | MComsProofGarbage
 | MComsCoinbase | MComsValueAdd (d : Z) | MComsAddOutput (v : N) | MComsAddInput (v : Z)
 | MComsAddChange (good : bool) | MComsAddSenderInput | MComsUnsorted
-| MPayProof (p : option (payinfo cpk cesig)).
+| MPayProof (p : option (payinfo cpk cesig))
+(* payment-proof field of the reply (C11) *)
+| MPPStrip | MPPNoSig
+| MPPResign (k : Z) (newaddr : bool)            (* signed by key k over the right message *)
+| MPPOver (da : Z) (oexcess osender : bool)     (* right key, other amount / excess / sender *)
+| MPPSaddr (a : Z) | MPPRaddr (a : Z)
+| MPPAdd (raddr : Z).                           (* a proof nobody asked for *)
 
 Definition upd_sigs (r : cslate) (f : list part -> list part) : cslate :=
   mkSlate (sl_num_parts r) (sl_id r) (sl_state r) (sl_coms r) (sl_unsorted r) (sl_amount r) (sl_fee r)
@@ -719,6 +716,14 @@ Fixpoint on_first_output (f : com -> list com) (l : list com) : list com :=
   end.
 Definition first_output (l : option (list com)) : option com :=
   match l with Some l => find (fun c => match cm_p c with Some _ => true | None => false end) l | None => None end.
+
+Definition set_proof (r : cslate) (p : option (payinfo cpk cesig)) : cslate :=
+  mkSlate (sl_num_parts r) (sl_id r) (sl_state r) (sl_coms r) (sl_unsorted r) (sl_amount r)
+          (sl_fee r) (sl_feat r) (sl_feat_args r) (sl_ttl r) (sl_off r) (sl_sigs r) p.
+(** the kernel excess the finalizing wallet will compute for reply [r]: its own key plus the
+    keys on the reply *)
+Definition reply_excess (c : cctx) (r : cslate) : commit :=
+  commit_of_key (cx_key c + sumZ (map pt_xs (sl_sigs r)))%Z.
 
 (** [c] is the finalizing wallet's context (for the mutations that copy its own data) *)
 Definition apply_mut (m : mutation) (c : cctx) (o r : cslate) : cslate :=
@@ -799,8 +804,32 @@ Definition apply_mut (m : mutation) (c : cctx) (o r : cslate) : cslate :=
                            Some (l ++ [mkCom 0 c' (Some (rp_create c'))])
                          | _, _ => l end) false
   | MComsUnsorted => upd_coms r (fun l => l) true
-  | MPayProof p => mkSlate (sl_num_parts r) (sl_id r) (sl_state r) (sl_coms r) (sl_unsorted r) (sl_amount r)
-                      (sl_fee r) (sl_feat r) (sl_feat_args r) (sl_ttl r) (sl_off r) (sl_sigs r) p
+  | MPayProof p => set_proof r p
+  | MPPStrip => set_proof r None
+  | MPPNoSig => set_proof r (match sl_proof r with
+                             | Some p => Some (mkPay (pi_sender p) (pi_receiver p) None) | None => None end)
+  | MPPResign k newaddr =>
+    set_proof r (match sl_proof r with
+                 | Some p => Some (mkPay (pi_sender p) (if newaddr then c_pub k else pi_receiver p)
+                                         (Some (c_sign k (cx_amount c, reply_excess c r, pi_sender p))))
+                 | None => None end)
+  | MPPOver da oe os =>
+    set_proof r (match sl_proof r with
+                 | Some p =>
+                   let e := reply_excess c r in
+                   Some (mkPay (pi_sender p) (pi_receiver p)
+                               (Some (c_sign (pi_receiver p)
+                                             (Z.to_N (Z.of_N (cx_amount c) + da),
+                                              (if oe then Cm (c_v e) (c_b e + 1) else e),
+                                              (if os then pi_sender p + 1 else pi_sender p)%Z))))
+                 | None => None end)
+  | MPPSaddr a => set_proof r (match sl_proof r with
+                               | Some p => Some (mkPay a (pi_receiver p) (pi_rsig p)) | None => None end)
+  | MPPRaddr a => set_proof r (match sl_proof r with
+                               | Some p => Some (mkPay (pi_sender p) a (pi_rsig p)) | None => None end)
+  | MPPAdd raddr =>
+    let sender := c_pub (c_addr_sk (cx_parent c) 0) in
+    set_proof r (Some (mkPay sender raddr (Some (c_sign raddr (cx_amount c, reply_excess c r, sender)))))
   end.
 
 (** One exchange as the harness reports it. Keys of the finalizing wallet's outputs are their
@@ -809,21 +838,21 @@ Record exch := mkExch {
   ex_id : N;
   ex_sender : Z;                 (* base index of the finalizing party's secrets *)
   ex_parent : N;                 (* account of the context *)
-  ex_inputs : list N;            (* keys of the context's inputs *)
+  ex_inputs : list (N * N);      (* context inputs: key, value *)
   ex_outputs : list (N * N);     (* context outputs: key, value *)
   ex_amount : N; ex_fee : option N;
   ex_pp : option (N * Z);        (* payment proof requested: derivation index, recipient address *)
-  ex_late : option (late_args cpk);
+  ex_late : option late_args;
   ex_ttl : N;
   ex_invoice : bool              (* the finalizing party issued an invoice *)
 }.
 
 Definition ex_ctx (os : list out) (e : exch) : cctx :=
   mkCtx (ex_parent e) (sec (ex_sender e)) (sec (ex_sender e + 1)) (sec (ex_sender e)) (sec (ex_sender e + 1))
-        (map (fun k => (k, match find (fun o => o_key o =? k) os with Some o => o_value o | None => 0 end))
-             (ex_inputs e))
+        (ex_inputs e)
         (ex_outputs e) (ex_amount e) (ex_fee e)
-        (match ex_pp e with Some (i, _) => Some i | None => None end) (ex_late e).
+        (match ex_pp e with Some (i, _) => Some i | None => None end)
+        (match ex_pp e with Some (_, a) => Some a | None => None end) (ex_late e).
 
 (** the slate the finalizing party sent out first (S1 or I1) *)
 Definition ex_slate1 (os : list out) (e : exch) : cslate :=
@@ -877,7 +906,7 @@ Definition case_setup (cs : case) : cwallet * cslate :=
       let s1b := ex_slate1 os b in
       let wb := add_ctx w1 (ex_id b) cb in
       (res_wallet wb (c_tx_lock_outputs wb s1b), forge_reply s1b (cs_forge_b cs) 40 (cs_rparent cs))
-    | None => (w1, forge_reply s1a (cs_forge_a cs) 40 (cs_rparent cs))
+    | None => (w1, forge_reply s1a (cs_forge_b cs) 40 (cs_rparent cs))
     end in
   let w3 :=
     if ex_invoice a then
@@ -916,4 +945,62 @@ Definition run_case (cs : case) : list Z :=
   | (w', Err e) =>
     [1%Z; err_code e; if (lenN (w_log w') =? lenN (w_log w)) then 0%Z else 1%Z]
   | (_, Panic _) => [2%Z]
+  end.
+
+(** ** exported payment proofs (C11) *)
+Inductive pmut :=
+| PNone | PAmount (d : Z) | PExcess | PRaddr (a : Z) | PSaddr (a : Z)
+| PRsig (k : Z) | PSsig (k : Z) | PSwapSigs | PSwapAddrs.
+
+Definition cproof := proof cpk cesig.
+Definition apply_pmut (m : pmut) (p : cproof) : cproof :=
+  match m with
+  | PNone => p
+  | PAmount d => mkProof (Z.to_N (Z.of_N (pf_amount p) + d)) (pf_excess p) (pf_raddr p) (pf_rsig p) (pf_saddr p) (pf_ssig p)
+  | PExcess => mkProof (pf_amount p) (Cm (c_v (pf_excess p)) (c_b (pf_excess p) + 1)) (pf_raddr p) (pf_rsig p) (pf_saddr p) (pf_ssig p)
+  | PRaddr a => mkProof (pf_amount p) (pf_excess p) a (pf_rsig p) (pf_saddr p) (pf_ssig p)
+  | PSaddr a => mkProof (pf_amount p) (pf_excess p) (pf_raddr p) (pf_rsig p) a (pf_ssig p)
+  | PRsig k => mkProof (pf_amount p) (pf_excess p) (pf_raddr p)
+                       (c_sign k (pf_amount p, pf_excess p, pf_saddr p)) (pf_saddr p) (pf_ssig p)
+  | PSsig k => mkProof (pf_amount p) (pf_excess p) (pf_raddr p) (pf_rsig p) (pf_saddr p)
+                       (c_sign k (pf_amount p, pf_excess p, pf_saddr p))
+  | PSwapSigs => mkProof (pf_amount p) (pf_excess p) (pf_raddr p) (pf_ssig p) (pf_saddr p) (pf_rsig p)
+  | PSwapAddrs => mkProof (pf_amount p) (pf_excess p) (pf_saddr p) (pf_rsig p) (pf_raddr p) (pf_ssig p)
+  end.
+
+(** the TxSent entry of slate [id] *)
+Definition sent_entry (w : cwallet) (id : N) : option (logentry cpk cesig) :=
+  find (fun e => (match lg_slate e with Some i => i =? id | None => false end)
+                 && type_eqb (lg_type e) TxSent) (w_log w).
+
+Definition c_retrieve (e : logentry cpk cesig) : result cproof :=
+  retrieve_payment_proof cpk cesig (lg_proof e) (lg_credited e) (lg_debited e)
+                         (match lg_fee e with Some f => Some (fee_of_fields f) | None => None end)
+                         (lg_excess e).
+Definition c_verify_proof (p : cproof) (kernel : option bool) (vparent : N) : result (bool * bool) :=
+  verify_payment_proof Z cpk cesig Z.eqb c_pub c_verify c_addr_sk p kernel vparent.
+
+(** finalize the case, export the proof from the sender's log entry, alter it, verify it in a
+    wallet whose active account has address label [vparent]:
+      [0; sender is mine; recipient is mine] | [1; class] | [2] panic | [3] finalize refused
+      | [4; class] retrieve failed *)
+Definition run_verify (cs : case) (pm : pmut) (kernel : option bool) (vparent : N) : list Z :=
+  let '(w, r) := case_setup cs in
+  match c_finalize_tx w r with
+  | (w', Ok _) =>
+    match sent_entry w' (sl_id r) with
+    | None => [4%Z; 0%Z]
+    | Some e =>
+      match c_retrieve e with
+      | Ok p =>
+        match c_verify_proof (apply_pmut pm p) kernel vparent with
+        | Ok (a, b) => [0%Z; if a then 1%Z else 0%Z; if b then 1%Z else 0%Z]
+        | Err e => [1%Z; err_code e]
+        | Panic _ => [2%Z]
+        end
+      | Err e => [4%Z; err_code e]
+      | Panic _ => [2%Z]
+      end
+    end
+  | _ => [3%Z]
   end.
